@@ -34,7 +34,18 @@ def run_dir():
 
 
 def overlay():
-    return go_overlay({"internal/index/manager/zz_verif_c12_test.go": os.path.join(ROOT, "harness/c12/zz_verif_c12_test.go")}, "c12_%d" % os.getpid())
+    """Harness files (add-only) plus a copy of builder.go in which the literal snapshot interval is the
+    variable verifSnapEvery of harness/c12/zz_verif_c12_builder.go (fails loudly if the literal is not
+    found exactly once)."""
+    src = open(os.path.join(REPO, "internal/index/builder/builder.go")).read()
+    pat = "nPacketsAfterSnapshot >= 100_000"
+    if src.count(pat) != 1:
+        raise RuntimeError("snapshot interval literal not found exactly once in builder.go")
+    bp = os.path.join(run_dir(), "builder_snapevery.go")
+    open(bp, "w").write(src.replace(pat, "nPacketsAfterSnapshot >= verifSnapEvery"))
+    return go_overlay({"internal/index/manager/zz_verif_c12_test.go": os.path.join(ROOT, "harness/c12/zz_verif_c12_test.go"),
+                       "internal/index/builder/zz_verif_c12_builder.go": os.path.join(ROOT, "harness/c12/zz_verif_c12_builder.go"),
+                       "internal/index/builder/builder.go": bp}, "c12_%d" % os.getpid())
 
 
 # ---------------------------------------------------------------- scenarios
@@ -71,6 +82,7 @@ def scen_tags():
         {"op": "add", "name": "tag/a", "color": "red", "def": "cport:1000"},
         {"op": "add", "name": "service/s", "color": "blue", "def": "sport:80"},
         {"op": "add", "name": "tag/b", "color": "x", "def": "tag:a or cport:1001"},
+        {"op": "add", "name": "tag/sq", "color": "x", "def": "@s:service:s cport:@s:cport@"},
         {"op": "add", "name": "mark/m", "color": "green", "def": "id:1"},
         {"op": "upd", "name": "mark/m", "markadd": [0, 2]},
         {"op": "upd", "name": "mark/m", "markdel": [1]},
@@ -85,6 +97,8 @@ def scen_tags():
         {"op": "add", "name": "generated/g", "color": "red", "def": "id:0,2"},
         {"op": "del", "name": "service/s"},
         {"op": "idle"},
+        {"op": "del", "name": "tag/sq"},
+        {"op": "del", "name": "service/s"},
         {"op": "delwebhook", "url": "http://127.0.0.1:9/hook"},
         {"op": "config", "auto": False},
         {"op": "idle"}]}
@@ -105,6 +119,26 @@ def scen_converters():
         {"op": "upd", "name": "service/s", "conv": ["ca", "cb"]},
         {"op": "idle"},
         {"op": "pcap", "name": "c.pcapng", "packets": [pkt(1004, 9, "new"), pkt(1001, 10, "!")]},
+        {"op": "idle"}]}
+
+
+def scen_snapshot():
+    """Snapshot points every 3 packets (overlay), packets with sub-second timestamps, a flow that is open
+    at the snapshot; the import after the restart continues that flow (checked exactly at idle copies)."""
+    def p(cport, t, ms, data):
+        d = pkt(cport, t, data)
+        d["ms"] = ms
+        return d
+    return {"name": "snapshot", "converters": [], "cont_stream": 0, "steps": [
+        {"op": "snapevery", "n": 3},
+        # the capture starts in the second before the snapshot points (a snapshot only filters captures that
+        # begin before it) and the snapshots fall on fractions of a second
+        {"op": "pcap", "name": "a.pcap", "packets": [p(1000, 9, 100, "a1"), p(1001, 9, 500, "b1"), p(1000, 9, 900, "a2"), p(1000, 10, 100, "a3"),
+                                                     p(1001, 10, 200, "b2"), p(1000, 10, 300, "a4"), p(1002, 10, 600, "c1"), p(1000, 10, 800, "a5")]},
+        {"op": "idle"},
+        {"op": "pcap", "name": "b.pcap", "packets": [p(1000, 11, 250, "a6"), p(1001, 11, 350, "b3"), p(1003, 11, 450, "d1"), p(1000, 11, 550, "a7")]},
+        {"op": "idle"},
+        {"op": "add", "name": "tag/a", "color": "red", "def": "cport:1000"},
         {"op": "idle"}]}
 
 
@@ -173,7 +207,7 @@ def gen_scenario(rng, k):
             else:
                 refs = [x for x in tags if x.startswith("tag/") and x != nm]
                 d = rng.choice(["cport:1000", "cport:1001,1002", "sport:80", "cdata:foo", "cdata:MORE", "cport:1000:1003"] +
-                               (["tag:%s" % refs[0].split("/")[1]] if refs else []))
+                               (["tag:%s" % refs[0].split("/")[1], "@s:tag:%s cport:@s:cport@" % refs[0].split("/")[1]] if refs else []))
             steps.append({"op": "add", "name": nm, "color": rng.choice(["red", "blue"]), "def": d})
             tags.add(nm)
         elif r < 0.85 and tags:
@@ -382,7 +416,7 @@ def recover_all(states, tag):
             note = (note + " " + n).strip()
         return res, note
     todo = [s["dir"] for s in states]
-    spec = {s["dir"]: {"dir": s["dir"], "deep": bool(s.get("deep")), "cont": s.get("cont")} for s in states}
+    spec = {s["dir"]: {"dir": s["dir"], "deep": bool(s.get("deep")), "cont": s.get("cont"), "snap": s.get("snap", 0)} for s in states}
     rounds = 0
     while todo and rounds < 6:
         rounds += 1
@@ -408,6 +442,10 @@ def recover_all(states, tag):
         if "end" not in res.get(last, {}):
             res[last]["fatal"] = m.group(1)[:600] if m else out[-600:]
         todo = todo[todo.index(last) + 1:]
+        if sum(1 for v in res.values() if str(v.get("end", {}).get("new", "")).startswith("hang")) >= 2:
+            for x in todo:
+                res.setdefault(x, {"skipped": True})
+            break       # two recovered managers hung: enough evidence, do not wait for more watchdogs
     return res, note
 
 
@@ -660,7 +698,7 @@ def tagview(tags):
     for t in tags or []:
         ismark = t["name"].startswith(("mark/", "generated/"))
         out[t["name"]] = {"def": None if ismark else t["def"], "color": t["color"], "convs": sorted(t["convs"] or []),
-                          "marks": sorted(t["matches"] or []) if ismark else None}
+                          "marks": sorted(t["matches"] or []) if ismark else None, "referenced": bool(t.get("referenced"))}
     return out
 
 
@@ -733,6 +771,12 @@ def judge(state, metas, rec, vers):
             vs = vers.get(k, [])
             if g not in vs or vs.index(g) < vs.index(s):
                 fails.append(("stream-old", "stream %s: before the crash %s, after restart %s" % (k, s, g)))
+    # a tag that other definitions reference (main or sub-query reference) is still protected after the restart
+    for g in r.get("guards") or []:
+        if g["del"] == "ok":
+            fails.append(("guard", "after restart DelTag(%s) was accepted although %s reference it" % (g["name"], g["refby"])))
+        if g["rename"] == "ok":
+            fails.append(("guard", "after restart %s could be renamed although %s reference it" % (g["name"], g["refby"])))
     if r.get("pcaps", 0) < m.get("pcaps", 0):
         fails.append(("pcaps", "known captures: %d before the crash, %d after restart" % (m.get("pcaps", 0), r.get("pcaps", 0))))
     # converter output of every stream matched by a tag the converter is attached to
@@ -746,7 +790,8 @@ def judge(state, metas, rec, vers):
             k = str(cont["id"])
             old, new = (r["streams"] or {}).get(k), (r.get("streams_c") or {}).get(k)
             tail = ",0:" + cont["data"].encode().hex()
-            if old is not None and (new is None or not (new.startswith(old) and new.endswith(tail))):
+            exact = state["kind"] in ("copy:idle", "closed")      # nothing was in flight: exactly the old stream plus the new datagram
+            if old is not None and (new is None or not (new.startswith(old) and new.endswith(tail)) or (exact and new != old + tail)):
                 fails.append(("continuation", "stream %s was %s after the restart; an import continuing its flow made it %s (expected it extended by %s)" % (k, old, new, tail)))
             if state["kind"] in ("copy:idle", "closed") and set(r.get("streams_c") or {}) != set(r["streams"] or {}):
                 fails.append(("continuation", "the import continuing stream %s created other streams: ids %s -> %s" % (k, sorted(r["streams"] or {}), sorted(r.get("streams_c") or {}))))
@@ -887,7 +932,7 @@ def model_diff(rec, mres):
         want = tagview(sfs[int(mres["state"])]["tags"])
     got = tagview(r["tags"])
     # matches of mark tags are re-derived from the definition on load: compare the rest
-    strip = lambda tv: {k: {x: y for x, y in v.items() if x != "marks"} for k, v in tv.items()}
+    strip = lambda tv: {k: {x: y for x, y in v.items() if x not in ("marks", "referenced")} for k, v in tv.items()}
     if strip(got) != strip(want):
         return "tags differ from the state file the model selects (%s): impl %s, file %s" % (mres["state"], strip(got), strip(want))
     return None
@@ -914,7 +959,7 @@ def main(tier, seed, replay=None):
     if replay:
         scens = [json.load(open(replay))["scenario"]]
     else:
-        scens = load_corpus() + [scen_tags(), scen_converters()]      # corpus/C12: merge-shadow, mark-text
+        scens = load_corpus() + [scen_tags(), scen_converters(), scen_snapshot()]      # corpus/C12: merge-shadow, mark-text, convert-job
         nrand = 8 if tier == "quick" else 60
         scens += [gen_scenario(rng, k) for k in range(nrand)]
     cuts = 2 if tier == "quick" else 6
@@ -944,9 +989,13 @@ def main(tier, seed, replay=None):
         all_states += states
     for scen, base, metas, states in per:
         tmax = max([p["t"] for st in scen["steps"] for p in st.get("packets", [])] or [0])
+        snap = ([st.get("n", 0) for st in scen["steps"] if st["op"] == "snapevery"] or [0])[-1]
         for s in states:
+            s["snap"] = snap
             m = metas[s["meta"]] if s["meta"] is not None else None
             ids = sorted((m or {}).get("streams") or {}, key=int)
+            if scen.get("cont_stream") is not None and str(scen["cont_stream"]) in ids:
+                ids = [str(scen["cont_stream"])]
             if ids:
                 # a packet that continues the flow of the oldest visible stream
                 flow = m["streams"][ids[0]].split("|", 1)[0]
@@ -991,6 +1040,8 @@ def main(tier, seed, replay=None):
             nstates += 1
             kinds[s["kind"].split(":")[0]] = kinds.get(s["kind"].split(":")[0], 0) + 1
             rec = recs.get(s["dir"])
+            if rec is not None and rec.get("skipped"):
+                continue
             fails = judge(s, metas, rec, vers)
             md = model_diff(rec, mres.get(s["dir"])) if rec else None
             if replay:
